@@ -498,9 +498,10 @@ Qed.
 
 (* ================================================================ preservation, action by action *)
 Variable rf : bool.
+Variable junk : list N.      (* files manager.New could not load (IndexesProofs.v) *)
 Notation stepm := (step capdb bad rf merge).
 
-Lemma v_step_import : forall ks st, inv13 st -> inv10 st -> inv10 (stepm st (AImport ks)).
+Lemma v_step_import : forall ks st, inv13 junk st -> inv10 st -> inv10 (stepm st (AImport ks)).
 Proof.
   intros ks st I3 I. simpl. destruct ks as [|k ks']; [exact I|].
   set (ks := k :: ks') in *.
@@ -511,7 +512,7 @@ Proof.
   apply inv10_launch_import; [exact I1|]. simpl.
   apply length_app_eq_nil in e.
   destruct (ijob st) eqn:Hj; [|reflexivity].
-  exfalso. apply (i_queue _ _ I3); [rewrite Hj; discriminate|exact e].
+  exfalso. apply (i_queue _ _ _ I3); [rewrite Hj; discriminate|exact e].
 Qed.
 
 Lemma v_step_view : forall v st, inv10 st -> inv10 (stepm st (AView v)).
@@ -760,7 +761,7 @@ Proof.
   apply inv10_launch_import; [exact I1|exact Hij].
 Qed.
 
-Theorem step_inv10 : forall st a, inv13 st -> inv10 st -> inv10 (stepm st a).
+Theorem step_inv10 : forall st a, inv13 junk st -> inv10 st -> inv10 (stepm st a).
 Proof.
   intros st a I3 I. destruct a as [ks|v|v|v| |h|h| | | |n|b|k|k].
   - apply v_step_import; auto.
@@ -787,13 +788,8 @@ Proof.
   - reflexivity.
 Qed.
 
-Theorem run_inv10 : forall acts, inv10 (fold_left stepm acts init).
-Proof.
-  intros acts.
-  assert (G : forall st, inv13 st -> inv10 st -> inv10 (fold_left stepm acts st)).
-  { induction acts; simpl; intros; auto. apply IHacts; [apply step_inv13|apply step_inv10]; auto. }
-  apply G; [apply inv13_init; assumption|apply inv10_init].
-Qed.
+Theorem run_inv10_from : forall acts st, inv13 junk st -> inv10 st -> inv10 (fold_left stepm acts st).
+Proof. induction acts; simpl; intros; auto. apply IHacts; [apply step_inv13|apply step_inv10]; auto. Qed.
 
 (* ================================================================ every served file lists an id at most once *)
 Definition files_ok (fs : list file) : Prop := forall f, In f fs -> NoDup (map e_id (f_ents f)).
@@ -866,12 +862,10 @@ Proof.
       rewrite indexes_set_used_disk, indexes_start_merge, indexes_start_converter, indexes_start_tagging. exact U.
 Qed.
 
-Theorem run_files_ok : forall acts, files_ok (indexes (fold_left stepm acts init)).
+Theorem run_files_ok_from : forall acts st, inv13 junk st -> inv10 st -> files_ok (indexes st) ->
+  files_ok (indexes (fold_left stepm acts st)).
 Proof.
-  intros acts.
-  assert (G : forall st, inv13 st -> inv10 st -> files_ok (indexes st) -> files_ok (indexes (fold_left stepm acts st))).
-  { induction acts; simpl; intros; auto. apply IHacts; [apply step_inv13|apply step_inv10|apply step_files_ok]; auto. }
-  apply G; [apply inv13_init; assumption|apply inv10_init|]. intros f H. simpl in H. tauto.
+  induction acts; simpl; intros; auto. apply IHacts; [apply step_inv13|apply step_inv10|apply step_files_ok]; auto.
 Qed.
 
 (* ================================================================ views *)
@@ -985,14 +979,6 @@ Proof.
 Qed.
 
 (* ================================================================ statements of C10 *)
-Section Statements.
-Variable capdb : N -> capture.
-Variable bad : N -> bool.
-Variable merge : list file -> list entry.
-Hypothesis merge_lookup : forall fs id, find_ent id (merge fs) = lookup_vis fs id.
-Hypothesis merge_sub : forall fs e, In e (merge fs) -> In e (ents_of fs).
-Hypothesis merge_nodup : forall fs, files_ok fs -> NoDup (map e_id (merge fs)).
-
 Lemma visible_once : forall fs id1 id2 e1 e2, ids_ok fs ->
   lookup_vis fs id1 = Some e1 -> lookup_vis fs id2 = Some e2 -> e_flow e1 = e_flow e2 -> id1 = id2.
 Proof.
@@ -1001,33 +987,44 @@ Proof.
   rewrite <- B1, <- B2. apply (I e1 e2 A1 A2). exact E.
 Qed.
 
-Lemma view_snapshot : forall acts1 acts2 v,
-  let st1 := fold_left (step capdb bad false merge) acts1 init in
-  let st2 := fold_left (step capdb bad false merge) (acts1 ++ AView v :: acts2) init in
-  view_of v (views st1) = None -> (forall a, In a acts2 -> a <> ARelease v) ->
-  view_of v (views st2) = Some (indexes st1) /\ (forall f, In f (indexes st1) -> In (f_uid f) (disk st2)).
-Proof.
-  intros acts1 acts2 v st1 st2 Hn Hr.
-  assert (V : view_of v (views st2) = Some (indexes st1)).
-  { subst st2. rewrite fold_left_app. simpl fold_left at 1. apply view_run_stable; auto. apply (view_open capdb bad merge false). exact Hn. }
-  split; [exact V|]. intros f Hf.
-  apply inv13_holder_on_disk; [apply run_inv13|]. right. left.
-  exists v, (indexes st1). split; [apply view_of_in; exact V|exact Hf].
-Qed.
+Lemma all_streams_sub : forall fs e, In e (all_streams fs) -> In e (ents_of fs).
+Proof. exact merge_ents_sub. Qed.
 
-End Statements.
-
-(* ================================================================ the property in one statement *)
-Section Headline.
+Section Statements.
 Variable capdb : N -> capture.
 Variable bad : N -> bool.
 Variable merge : list file -> list entry.
 Hypothesis merge_lookup : forall fs id, find_ent id (merge fs) = lookup_vis fs id.
 Hypothesis merge_sub : forall fs e, In e (merge fs) -> In e (ents_of fs).
 Hypothesis merge_nodup : forall fs, files_ok fs -> NoDup (map e_id (merge fs)).
+(* any start state that satisfies the invariants: the empty directory (init) or what manager.New loads (init_from) *)
+Variable junk : list N.
+Variable st0 : state.
+Hypothesis start13 : inv13 junk st0.
+Hypothesis start10 : inv10 capdb bad merge st0.
+Hypothesis startF : files_ok (indexes st0).
 
-Lemma all_streams_sub : forall fs e, In e (all_streams fs) -> In e (ents_of fs).
-Proof. exact merge_ents_sub. Qed.
+Let runf (rf : bool) (acts : list action) : state := fold_left (step capdb bad rf merge) acts st0.
+
+Lemma run_inv10_st0 : forall rf acts, inv10 capdb bad merge (runf rf acts).
+Proof. intros. apply (run_inv10_from capdb bad merge merge_lookup merge_sub rf junk); auto. Qed.
+
+Lemma run_files_ok_st0 : forall rf acts, files_ok (indexes (runf rf acts)).
+Proof. intros. apply (run_files_ok_from capdb bad merge merge_lookup merge_sub rf junk merge_nodup); auto. Qed.
+
+Lemma view_snapshot : forall acts1 acts2 v,
+  let st1 := runf false acts1 in
+  let st2 := runf false (acts1 ++ AView v :: acts2) in
+  view_of v (views st1) = None -> (forall a, In a acts2 -> a <> ARelease v) ->
+  view_of v (views st2) = Some (indexes st1) /\ (forall f, In f (indexes st1) -> In (f_uid f) (disk st2)).
+Proof.
+  intros acts1 acts2 v st1 st2 Hn Hr.
+  assert (V : view_of v (views st2) = Some (indexes st1)).
+  { subst st2. unfold runf. rewrite fold_left_app. simpl fold_left at 1. apply view_run_stable; auto. apply (view_open capdb bad merge false). exact Hn. }
+  split; [exact V|]. intros f Hf.
+  apply (inv13_holder_on_disk junk); [apply run_inv13_from; exact start13|]. right. left.
+  exists v, (indexes st1). split; [apply view_of_in; exact V|exact Hf].
+Qed.
 
 (* what AllStreams over a file list returns, when the list satisfies the invariant for the captures P *)
 Lemma all_streams_answer : forall P fs, spec_ok capdb P fs -> ids_ok fs -> files_ok fs ->
@@ -1046,8 +1043,8 @@ Proof.
 Qed.
 
 Theorem view_answers : forall acts1 acts2 v,
-  let st1 := fold_left (step capdb bad false merge) acts1 init in
-  let st2 := fold_left (step capdb bad false merge) (acts1 ++ AView v :: acts2) init in
+  let st1 := runf false acts1 in
+  let st2 := runf false (acts1 ++ AView v :: acts2) in
   view_of v (views st1) = None -> (forall a, In a acts2 -> a <> ARelease v) ->
   exists s, view_of v (views st2) = Some s /\
     (forall e, In e (all_streams s) ->
@@ -1058,12 +1055,42 @@ Theorem view_answers : forall acts1 acts2 v,
     (forall f, In f s -> In (f_uid f) (disk st2)).
 Proof.
   intros acts1 acts2 v st1 st2 Hn Hr.
-  destruct (view_snapshot capdb bad merge acts1 acts2 v Hn Hr) as [V D].
+  destruct (view_snapshot acts1 acts2 v Hn Hr) as [V D].
   exists (indexes st1). split; [exact V|].
-  pose proof (run_inv10 capdb bad merge merge_lookup merge_sub false acts1) as I.
-  pose proof (run_files_ok capdb bad merge merge_lookup merge_sub false merge_nodup acts1) as W.
+  pose proof (run_inv10_st0 false acts1) as I.
+  pose proof (run_files_ok_st0 false acts1) as W.
   destruct (all_streams_answer (processed st1) (indexes st1) (v_spec _ _ _ _ I) (v_ids _ _ _ _ I) W) as (A & B & C).
   split; [exact A|]. split; [exact B|]. split; [exact C|exact D].
 Qed.
 
-End Headline.
+End Statements.
+
+(* ================================================================ the two start states *)
+Section Starts.
+Variable capdb : N -> capture.
+Variable bad : N -> bool.
+Variable merge : list file -> list entry.
+
+Lemma start_init : inv13 [] init /\ inv10 capdb bad merge init /\ files_ok (indexes init).
+Proof.
+  split; [|split].
+  - exact (run_inv13 capdb bad false merge []).
+  - apply inv10_init.
+  - intros f H. simpl in H. tauto.
+Qed.
+
+(* manager.New over an index directory: the loaded files (in name order) must be what earlier runs left behind, i.e.
+   represent the captures P processed so far -- that they do after a crash or restart is property C12 *)
+Lemma start_from : forall fs junk P,
+  NoDup (map f_uid fs ++ junk) -> spec_ok capdb P fs -> ids_ok fs -> files_ok fs ->
+  inv13 junk (init_from capdb fs junk P) /\ inv10 capdb bad merge (init_from capdb fs junk P) /\
+  files_ok (indexes (init_from capdb fs junk P)).
+Proof.
+  intros fs junk P ND S I W. split; [|split].
+  - apply inv13_init_from; auto.
+  - constructor; simpl; try (intros; discriminate); auto.
+    unfold pending_caps. simpl. rewrite app_nil_r. reflexivity.
+  - exact W.
+Qed.
+
+End Starts.
